@@ -161,7 +161,177 @@ def ambig_pairs(cfg):
             yield i, j, pool[i], pool[j], (common[0] if common else None)
 
 
-def _ambig_cases(cfg):
+# ---- seeded random regex pairs with an EXACT oracle (product of two small NFAs built from the generator's own AST) ----
+RX_ALPHA = ["d", "e", "x", "\u00e9", "\u00e8"]
+RX_OTHER = "z"          # stands for every character outside RX_ALPHA (only negated classes match it)
+RX_ATOMS = [("lit", "d"), ("lit", "e"), ("lit", "x"), ("lit", "\u00e9"), ("cls", "de", False), ("cls", "ex", False),
+            ("cls", "e", True), ("cls", "\u00e8\u00e9", False), ("cls", "dx\u00e9", False)]
+RX_REPS = [None, None, None, (0, 1), (0, None), (1, None), (2, 2), (2, None), (1, 2), (3, None), (2, 3)]
+
+
+def _rx_text(n, top=True):
+    k = n[0]
+    if k == "lit":
+        return n[1]
+    if k == "cls":
+        return "[%s%s]" % ("^" if n[2] else "", n[1])
+    if k == "cat":
+        return "".join(_rx_text(c, False) for c in n[1])
+    if k == "alt":
+        return "(?:%s)" % "|".join(_rx_text(c, False) for c in n[1])
+    if k == "rep":
+        inner = _rx_text(n[1], False)
+        if n[1][0] == "cat":
+            inner = "(?:%s)" % inner
+        lo, hi = n[2], n[3]
+        suf = {(0, 1): "?", (0, None): "*", (1, None): "+"}.get((lo, hi))
+        if suf is None:
+            suf = "{%d}" % lo if lo == hi else ("{%d,}" % lo if hi is None else "{%d,%d}" % (lo, hi))
+        return inner + suf
+    raise ValueError(k)
+
+
+def _rx_random(rng):
+    def rep(node):
+        r = rng.choice(RX_REPS)
+        return node if r is None else ("rep", node, r[0], r[1])
+
+    def seq():
+        n = rng.choice([1, 1, 2, 2, 3])
+        parts = [rep(rng.choice(RX_ATOMS)) for _ in range(n)]
+        return parts[0] if n == 1 else ("cat", parts)
+    t = rng.random()
+    if t < 0.55:
+        return seq()
+    if t < 0.8:
+        return rep(("alt", [seq(), seq()]))
+    return ("cat", [rep(("alt", [seq(), seq()])), rep(rng.choice(RX_ATOMS))])
+
+
+class _Nfa:
+    def __init__(self):
+        self.eps, self.edges, self.n = {}, {}, 0
+
+    def new(self):
+        self.n += 1
+        return self.n - 1
+
+    def build(self, node, a, b):
+        """thread `node` between states a and b"""
+        k = node[0]
+        if k in ("lit", "cls"):
+            syms = set(RX_ALPHA + [RX_OTHER])
+            if k == "lit":
+                m = {node[1]}
+            else:
+                m = set(node[1])
+                m = (syms - m) if node[2] else m
+            for c in m:
+                self.edges.setdefault((a, c), set()).add(b)
+        elif k == "cat":
+            cur = a
+            for i, c in enumerate(node[1]):
+                nxt = b if i == len(node[1]) - 1 else self.new()
+                self.build(c, cur, nxt)
+                cur = nxt
+        elif k == "alt":
+            for c in node[1]:
+                self.build(c, a, b)
+        elif k == "rep":
+            lo, hi = node[2], node[3]
+            cur = a
+            for _ in range(lo):
+                nxt = self.new()
+                self.build(node[1], cur, nxt)
+                cur = nxt
+            if hi is None:
+                loop = self.new()
+                self.eps.setdefault(cur, set()).add(loop)
+                self.build(node[1], loop, loop)
+                self.eps.setdefault(loop, set()).add(b)
+            else:
+                self.eps.setdefault(cur, set()).add(b)
+                for _ in range(hi - lo):
+                    nxt = self.new()
+                    self.build(node[1], cur, nxt)
+                    self.eps.setdefault(nxt, set()).add(b)
+                    cur = nxt
+
+    def close(self, states):
+        st, todo = set(states), list(states)
+        while todo:
+            q = todo.pop()
+            for r in self.eps.get(q, ()):
+                if r not in st:
+                    st.add(r)
+                    todo.append(r)
+        return frozenset(st)
+
+    def step(self, states, c):
+        out = set()
+        for q in states:
+            out |= self.edges.get((q, c), set())
+        return self.close(out)
+
+
+def _rx_automaton(node):
+    m = _Nfa()
+    a, b = m.new(), m.new()
+    m.build(node, a, b)
+    return m, m.close([a]), b
+
+
+def _rx_shortest_common(n1, n2):
+    """shortest NON-EMPTY string matched by both (None if the languages share no non-empty string): exact, by BFS on the product"""
+    (m1, s1, f1), (m2, s2, f2) = _rx_automaton(n1), _rx_automaton(n2)
+    seen = {(s1, s2)}
+    frontier = [((s1, s2), "")]
+    while frontier:
+        nxt = []
+        for ((p, q), w) in frontier:
+            for c in RX_ALPHA + [RX_OTHER]:
+                p2, q2 = m1.step(p, c), m2.step(q, c)
+                if not p2 or not q2:
+                    continue
+                if f1 in p2 and f2 in q2:
+                    return w + c
+                if (p2, q2) not in seen:
+                    seen.add((p2, q2))
+                    nxt.append(((p2, q2), w + c))
+        frontier = nxt
+    return None
+
+
+def _rx_nullable(node):
+    m, s, f = _rx_automaton(node)
+    return f in s
+
+
+def rx_pairs(seed, n):
+    """n seeded random regexes (none matching the empty string), all pairs: (i, j, text_i, text_j, witness or None)"""
+    import random
+    import re as _re
+    rng = random.Random(7919 * (seed + 1))
+    nodes, texts = [], []
+    guard = 0
+    while len(nodes) < n and guard < 1000:
+        guard += 1
+        nd = _rx_random(rng)
+        tx = _rx_text(nd)
+        if tx in texts or _rx_nullable(nd) or len(tx) > 24:
+            continue
+        nodes.append(nd)
+        texts.append(tx)
+    for i in range(len(nodes)):
+        for j in range(i + 1, len(nodes)):
+            w = _rx_shortest_common(nodes[i], nodes[j])
+            if w is not None:
+                # self-check of the oracle against Python's regex engine
+                assert _re.fullmatch(texts[i], w) and _re.fullmatch(texts[j], w), (texts[i], texts[j], w)
+            yield i, j, texts[i], texts[j], w
+
+
+def _ambig_cases(cfg, seed=0, tier="quick"):
     """(id, grammar text, description, witness or None, equal precedence?)"""
     import re as _re
     a = cfg["ambig"]
@@ -185,16 +355,23 @@ def _ambig_cases(cfg):
         for j, p2 in enumerate(a["pool"]):
             w = lit if _re.fullmatch(p2, lit) else None
             yield ("lit%d:%d" % (li, j), AMBIG_LITERAL % (lit, p2), 'literal "%s" and r"%s"' % (lit, p2), w, False)
+    nrx = a.get("random_regexes_thorough", 16) if tier == "thorough" else a.get("random_regexes_quick", 8)
+    for (i, j, p1, p2, witness) in rx_pairs(seed, nrx):
+        yield ("r%d_%d:%d:%d" % (seed, nrx, i, j), AMBIG_GRAMMAR % (p1, p2), 'random terminals r"%s" and r"%s"' % (p1, p2), witness, True)
 
 
-def run_ambig(root, repo, cfg, lalrpop, work, only=None):
+def run_ambig(root, repo, cfg, lalrpop, work, only=None, seed=0, tier="quick"):
     """-> (number of grammars run, list of failure dicts)"""
+    if only is not None and re.match(r"^r\d+_\d+:", only):
+        # a random-regex case carries its own generator parameters: r<seed>_<count>:i:j
+        seed, cnt = [int(x) for x in only[1:].split(":")[0].split("_")]
+        cfg = dict(cfg, ambig=dict(cfg["ambig"], random_regexes_quick=cnt, random_regexes_thorough=cnt))
     gdir = os.path.join(work, "ambig")
     os.makedirs(gdir, exist_ok=True)
     env = dict(os.environ)
     env.pop("LALRPOP_LANE_TABLE", None)
     n, fails = 0, []
-    for (cid, text, desc, witness, equal) in _ambig_cases(cfg):
+    for (cid, text, desc, witness, equal) in _ambig_cases(cfg, seed, tier):
         if only is not None and only != cid:
             continue
         src = os.path.join(gdir, "amb_%s.lalrpop" % cid.replace(":", "_"))
@@ -361,7 +538,7 @@ def run_gen_unit(root, repo, us, prop, tier, seed, work):
         r["wall_s"] = time.time() - t0
         return r
     # C11 end to end
-    an, afails = run_ambig(root, repo, cfg, cfg["_lalrpop"], work)
+    an, afails = run_ambig(root, repo, cfg, cfg["_lalrpop"], work, seed=seed, tier=tier)
     for af in afails:
         r["failed"].append(dict(id="native/gen:ambig_%s:C11" % af["pair"].replace(":", "_"), function="lexer ambiguity check", message=af["msg"][:600], clause="",
                                 tags=["C11"], output=af["msg"], counterexample=af["msg"], replay_gen=dict(arg="ambig=" + af["pair"])))
